@@ -125,6 +125,27 @@ def base_kwargs(spec):
   return kw
 
 
+def transformed(case, scale=1.0, rename=None, date_shift=0, permute=True, id_int=None, perm_seed=None):
+  """A presentation variant of an already materialised case: same resolved kwargs (budget range scaled), new frames."""
+  c = Case()
+  spec = case.spec
+  panel = dict(spec['panel'])
+  if perm_seed is not None:
+    panel['perm_seed'] = perm_seed
+  c.spec = spec
+  c.resp_col = panel['resp_col']
+  c.df = build_frame(panel, scale, rename, date_shift, permute, id_int)
+  eint = (panel['id_int'] if id_int is None else id_int)
+  c.elig_df = build_elig_frame(spec['elig'], rename, bool(eint))
+  kw = dict(case.kwargs)
+  if 'budget_range' in kw:
+    kw['budget_range'] = (kw['budget_range'][0] * scale, kw['budget_range'][1] * scale)
+  c.kwargs = kw
+  c.elig_rows = None if spec['elig'] is None else [[(rename.get(r[0], r[0]) if rename else r[0])] + list(r[1:]) for r in spec['elig']['rows']]
+  c.space = None
+  return c
+
+
 def materialise(spec, scale=1.0, rename=None, date_shift=0, permute=True, id_int=None):
   """-> Case with df, elig_df, kwargs (budget/share resolved from the data) and the reference Space."""
   c = Case()
